@@ -439,6 +439,8 @@ def inline_new_temporaries(fnode, base_names, stats):
         continue
       if sum(1 for n in ast.walk(fnode) if isinstance(n, ast.Name) and n.id == nm and isinstance(n.ctx, ast.Store)) != 1:
         continue     # (two definitions of the same shape have one fingerprint)
+      if any(isinstance(n, (ast.Nonlocal, ast.Global)) and nm in n.names for n in ast.walk(fnode)):
+        continue     # not a local of this function at all: the binding lives in (and is shared with) an enclosing scope
       # the single defining statement and its block
       S = blk = None
       for b in _blocks(fnode):
@@ -449,6 +451,17 @@ def inline_new_temporaries(fnode, base_names, stats):
         continue
       all_uses = _loads(fnode, nm)
       own_uses = _loads(fnode, nm, into_nested=False)
+      if all_uses:
+        # every use must come after the definition (a read placed before it sees another value, or none)
+        _ord = {}
+
+        def _dfs(n_):
+          _ord[id(n_)] = len(_ord)
+          for ch_ in ast.iter_child_nodes(n_):
+            _dfs(ch_)
+        _dfs(fnode)
+        if any(_ord[id(u)] < _ord[id(S)] for u in all_uses):
+          continue
       if not all_uses:
         # a new local that is never read: dropping a pure definition changes nothing
         if _is_pure(S.value):
@@ -1483,6 +1496,19 @@ def box_nonlocals(fnode, bsrc, stats):
   for n in ast.walk(bsrc):
     if isinstance(n, ast.Assign) and len(n.targets) == 1 and isinstance(n.targets[0], ast.Name) and isinstance(n.value, ast.List) and len(n.value.elts) == 1:
       boxed.add(n.targets[0].id)
+  # one closure variable under another name: the reference's (unused) boxed name is taken over
+  used_here = set(n.id for n in ast.walk(fnode) if isinstance(n, ast.Name))
+  spare = sorted(boxed - used_here)
+  odd = sorted(nm for nm in names - boxed if sum(1 for n in own_nodes(fnode) if isinstance(n, ast.Assign) and len(n.targets) == 1
+                                                and isinstance(n.targets[0], ast.Name) and n.targets[0].id == nm) == 1)
+  if len(spare) == 1 and len(odd) == 1:
+    old_, new_ = odd[0], spare[0]
+    for n in ast.walk(fnode):
+      if isinstance(n, ast.Name) and n.id == old_:
+        n.id = new_
+      elif isinstance(n, ast.Nonlocal):
+        n.names = [new_ if nm == old_ else nm for nm in n.names]
+    names = (names - {old_}) | {new_}
   for x in sorted(names & boxed):
     # only when x is a plain local of fnode itself
     own_stores = [n for n in own_nodes(fnode) if isinstance(n, ast.Assign) and len(n.targets) == 1 and isinstance(n.targets[0], ast.Name) and n.targets[0].id == x]
@@ -2251,6 +2277,8 @@ def rename_function(fnode, rel, qualname, base_funcs, stats):
     fnode.body = [r.visit(s) for s in fnode.body]
   try:
     base_names = set(base.get('params', [])) | set(b[0] for b in base.get('locals', []))
+    # names declared nonlocal / global are not locals of this function: no step may treat them as new temporaries
+    base_names |= set(nm_ for n_ in own_nodes(fnode) if isinstance(n_, (ast.Nonlocal, ast.Global)) for nm_ in n_.names)
     bsrc = base_source_fn(rel, qualname)
     try:
       drop_self_assignments(fnode, stats)
@@ -2430,6 +2458,11 @@ def _tail_form_ok(body):
         if not ok(st.body) or not ok(st.orelse):
           return False
         continue
+      if isinstance(st, ast.With) and st is stmts[-1]:
+        # the last statement: a return at its tail leaves the block and the function together
+        if not ok(st.body):
+          return False
+        continue
       if isinstance(st, (ast.FunctionDef, ast.AsyncFunctionDef, ast.ClassDef)):
         continue
       if any(isinstance(x, ast.Return) for x in ast.walk(st)):
@@ -2544,6 +2577,9 @@ def inline_body(helper, call, is_method, kind, target, caller_locals, base_line=
       for i_, st in enumerate(stmts):
         if isinstance(st, ast.Return):
           return out_ + finish(st.value if st.value is not None else (ast.Constant(value=None) if kind == 'assign' else None))
+        if isinstance(st, ast.With) and i_ == len(stmts) - 1 and any(isinstance(x, ast.Return) for x in ast.walk(st)):
+          st.body = tail(list(st.body)) or [ast.Pass(**loc)]
+          return out_ + [st]
         if isinstance(st, ast.If) and any(isinstance(x, ast.Return) for x in ast.walk(st)):
           rest = stmts[i_ + 1:]
           b_ = tail(list(st.body) + [copy.deepcopy(r_) for r_ in rest])
